@@ -274,8 +274,10 @@ func vfMapLaws(aroot ast.Node, droot dst.Node, toDst map[ast.Node]dst.Node, toAs
 	for k := range toDst {
 		vfAssert(!vfIsNil(k), id+"/no-nil-key")
 	}
-	for k := range toAst {
-		vfAssert(!vfIsNil(k), id+"/no-nil-key")
+	// the whole maps (not only the entries reachable from the tree) are mutually inverse
+	for d, a := range toAst {
+		vfAssert(!vfIsNil(d), id+"/no-nil-key")
+		vfAssert(toDst[a] == d, id+"/whole-map-inverse")
 	}
 	vfAssert(len(aorder) == len(dorder), id+"/same-node-count")
 }
@@ -490,4 +492,182 @@ func vfPerType_C04Acc(typ string) {
 	c2 := len(r2.comments)
 	r2.restoreNode(dst.Clone(n), "", "", "", false)
 	vfAssert(len(r2.comments) > c2 && r2.comments[c2].List[0].Text == "/*replaced*/", "accessor-writes-are-rendered")
+}
+
+
+// ---- C11: object links, several files per restorer, qualified identifiers ---------------------------
+
+// VerifC11Objects: declarations whose identifiers carry parser objects (Obj.Decl pointing back to the
+// declaring node: labeled statement, function, value spec, type spec, field, short variable
+// declaration). Decorating goes through the object link recursively; the node maps must still be
+// inverse one-to-one correspondences over the whole map.
+func VerifC11Objects() {
+	var n dst.Node
+	var declOf func(an ast.Node) (*ast.Ident, ast.Node)
+	switch vfChoice("decl", 6) {
+	case 0:
+		n = &dst.LabeledStmt{Label: &dst.Ident{Name: "L"}, Stmt: &dst.ExprStmt{X: &dst.Ident{Name: "x"}}}
+		declOf = func(an ast.Node) (*ast.Ident, ast.Node) { return an.(*ast.LabeledStmt).Label, an }
+	case 1:
+		n = &dst.FuncDecl{Name: &dst.Ident{Name: "f"}, Type: &dst.FuncType{Func: true, Params: &dst.FieldList{Opening: true, Closing: true}}, Body: &dst.BlockStmt{}}
+		declOf = func(an ast.Node) (*ast.Ident, ast.Node) { return an.(*ast.FuncDecl).Name, an }
+	case 2:
+		n = &dst.ValueSpec{Names: []*dst.Ident{{Name: "v"}}, Type: &dst.Ident{Name: "int"}}
+		declOf = func(an ast.Node) (*ast.Ident, ast.Node) { return an.(*ast.ValueSpec).Names[0], an }
+	case 3:
+		n = &dst.TypeSpec{Name: &dst.Ident{Name: "T"}, Type: &dst.Ident{Name: "int"}}
+		declOf = func(an ast.Node) (*ast.Ident, ast.Node) { return an.(*ast.TypeSpec).Name, an }
+	case 4:
+		n = &dst.Field{Names: []*dst.Ident{{Name: "a"}}, Type: &dst.Ident{Name: "int"}}
+		declOf = func(an ast.Node) (*ast.Ident, ast.Node) { return an.(*ast.Field).Names[0], an }
+	default:
+		n = &dst.AssignStmt{Lhs: []dst.Expr{&dst.Ident{Name: "a"}}, Tok: token.DEFINE, Rhs: []dst.Expr{&dst.Ident{Name: "b"}}}
+		declOf = func(an ast.Node) (*ast.Ident, ast.Node) { return an.(*ast.AssignStmt).Lhs[0].(*ast.Ident), an }
+	}
+	// the declaration sits in a block, optionally after a use of the declared name (forward reference)
+	use := &dst.Ident{Name: "use"}
+	wrap := &dst.BlockStmt{}
+	fwd := vfChoice("forward", 2) == 1
+	if fwd {
+		wrap.List = append(wrap.List, &dst.ExprStmt{X: use})
+	}
+	switch x := n.(type) {
+	case dst.Stmt:
+		wrap.List = append(wrap.List, x)
+	case dst.Decl:
+		wrap.List = append(wrap.List, &dst.DeclStmt{Decl: x})
+	case dst.Spec:
+		tok := token.VAR
+		if _, ok := x.(*dst.TypeSpec); ok {
+			tok = token.TYPE
+		}
+		wrap.List = append(wrap.List, &dst.DeclStmt{Decl: &dst.GenDecl{Tok: tok, Specs: []dst.Spec{x}}})
+	case *dst.Field:
+		wrap.List = append(wrap.List, &dst.ExprStmt{X: &dst.FuncLit{Type: &dst.FuncType{Func: true, Params: &dst.FieldList{Opening: true, Closing: true, List: []*dst.Field{x}}}, Body: &dst.BlockStmt{}}})
+	}
+	if !fwd {
+		wrap.List = append(wrap.List, &dst.ExprStmt{X: use})
+	}
+	r := vfRestorerMid()
+	aw := r.restoreNode(wrap, "", "", "", false)
+	id, decl := declOf(r.Ast.Nodes[n])
+	obj := &ast.Object{Kind: ast.Var, Name: id.Name, Decl: decl}
+	id.Obj = obj
+	r.Ast.Nodes[use].(*ast.Ident).Obj = obj
+
+	fd := NewDecorator(nil).newFileDecorator()
+	out, err := fd.decorateNode(nil, "", "", "", aw)
+	vfAssert(err == nil, "decorate-ok")
+	vfReach("decorated")
+	vfMapLaws(aw, out, fd.Dst.Nodes, fd.Ast.Nodes, "decorator-maps-with-objects")
+	do := fd.Dst.Objects[obj]
+	vfAssert(do != nil, "object-decorated")
+	if do != nil {
+		vfAssert(do.Decl == dst.Node(fd.Dst.Nodes[decl]), "object-decl-is-the-tree-node")
+	}
+}
+
+// VerifC11TwoFiles: one Restorer restores two files: its map describes both.
+func VerifC11TwoFiles() {
+	mk := func(s string) *dst.File {
+		return &dst.File{Name: &dst.Ident{Name: "p"}, Decls: []dst.Decl{&dst.GenDecl{Tok: token.VAR, Specs: []dst.Spec{
+			&dst.ValueSpec{Names: []*dst.Ident{{Name: s}}, Type: &dst.Ident{Name: "int"}}}}}}
+	}
+	f1, f2 := mk("a"), mk("b")
+	res := NewRestorer()
+	a1, e1 := res.RestoreFile(f1)
+	a2, e2 := res.RestoreFile(f2)
+	vfAssert(e1 == nil && e2 == nil, "restore-ok")
+	for _, pr := range []struct {
+		a *ast.File
+		d *dst.File
+	}{{a1, f1}, {a2, f2}} {
+		apar, aorder := vfAstParents(pr.a)
+		_ = apar
+		for _, a := range aorder {
+			d, ok := res.Dst.Nodes[a]
+			vfAssert(ok, "two-files/every-ast-node-mapped")
+			if ok {
+				vfAssert(res.Ast.Nodes[d] == a, "two-files/maps-inverse")
+			}
+		}
+		_, dorder := vfDstParents(pr.d)
+		for _, d := range dorder {
+			_, ok := res.Ast.Nodes[d]
+			vfAssert(ok, "two-files/every-dst-node-mapped")
+		}
+	}
+}
+
+// VerifC11Collapse: with import resolution a qualified identifier pkg.Name collapses onto one dst
+// identifier: the selector, its X and its Sel all map to that identifier, the identifier maps back to
+// the selector expression, and the correspondence commutes with parent/child structure; the restorer's
+// maps obey the same laws for the selector it creates.
+func VerifC11Collapse() {
+	sel := &dst.SelectorExpr{X: &dst.Ident{Name: "pkg"}, Sel: &dst.Ident{Name: vfOpaque("name", "N")}}
+	var n dst.Node
+	var parentOf func(an ast.Node) ast.Node
+	switch vfChoice("ctx", 3) {
+	case 0:
+		n = &dst.CallExpr{Fun: sel}
+		parentOf = func(an ast.Node) ast.Node { return an }
+	case 1:
+		n = &dst.ExprStmt{X: &dst.StarExpr{X: sel}}
+		parentOf = func(an ast.Node) ast.Node { return an.(*ast.ExprStmt).X }
+	default:
+		n = &dst.ValueSpec{Names: []*dst.Ident{{Name: "v"}}, Type: sel}
+		parentOf = func(an ast.Node) ast.Node { return an }
+	}
+	r0 := vfRestorerMid()
+	an := r0.restoreNode(n, "", "", "", false)
+	asel := r0.Ast.Nodes[sel].(*ast.SelectorExpr)
+
+	fd := NewDecorator(nil).newFileDecorator()
+	fd.Resolver, fd.Path = vfQualResolver{}, vfLocal
+	out, err := fd.decorateNode(nil, "", "", "", an)
+	vfAssert(err == nil, "decorate-ok")
+	vfReach("decorated")
+	id, ok := fd.Dst.Nodes[asel].(*dst.Ident)
+	vfAssert(ok, "selector-collapsed-to-ident")
+	if !ok {
+		return
+	}
+	vfAssert(id.Path == "x.y/pkg" && id.Name == sel.Sel.Name, "path-and-name")
+	vfAssert(fd.Dst.Nodes[asel.X] == dst.Node(id) && fd.Dst.Nodes[asel.Sel] == dst.Node(id), "three-ast-nodes-one-ident")
+	vfAssert(fd.Ast.Nodes[id] == ast.Node(asel), "ident-maps-back-to-selector")
+	// parent/child commutation
+	dpar, dorder := vfDstParents(out)
+	vfAssert(dpar[id] == fd.Dst.Nodes[parentOf(an)], "parent-child-commutes")
+	for _, d := range dorder {
+		a, ok := fd.Ast.Nodes[d]
+		vfAssert(ok, "every-dst-node-mapped")
+		if ok {
+			vfAssert(fd.Dst.Nodes[a] == d, "maps-inverse-dst")
+		}
+	}
+	for k := range fd.Dst.Nodes {
+		vfAssert(!vfIsNil(k), "no-nil-key")
+	}
+
+	// restore side: expansion back into a selector
+	r := vfRestorerMid()
+	calls := 0
+	r.Resolver, r.Path = vfResolver{names: map[string]string{"x.y/pkg": "pkg"}, failAt: -1, calls: &calls}, vfLocal
+	r.packageNames["x.y/pkg"] = "pkg"
+	an2 := r.restoreNode(out, "", "", "", false)
+	se2, ok := r.Ast.Nodes[id].(*ast.SelectorExpr)
+	vfAssert(ok, "restore/ident-expanded-to-selector")
+	if !ok {
+		return
+	}
+	vfAssert(r.Dst.Nodes[se2] == dst.Node(id), "restore/selector-maps-to-ident")
+	vfAssert(r.Dst.Nodes[se2.X] == dst.Node(id) && r.Dst.Nodes[se2.Sel] == dst.Node(id), "restore/three-ast-nodes-one-ident")
+	for k := range r.Dst.Nodes {
+		vfAssert(!vfIsNil(k), "restore/no-nil-key")
+	}
+	_, aorder := vfAstParents(an2)
+	for _, a := range aorder {
+		_, ok := r.Dst.Nodes[a]
+		vfAssert(ok, "restore/every-ast-node-mapped")
+	}
 }
